@@ -9,7 +9,10 @@ GetLinkCounts / GetLinkCount / raw count bucket on both sides for every universe
 T cases: the same over parent / child store hierarchies (model Links/HierMachine.v, harness c05_hier.go):
 each side is a root store with plain / Extended child stores, the collection pairs are registered on
 stores of any level, creates and deletes go through any store of a family; the property clauses are
-evaluated per pair on the implementation's own observation."""
+evaluated per pair on the implementation's own observation.
+K cases: T cases in which the kinds of collection the two stores of a pair register vary (link collection only,
+ref-counted only, both, neither - so a store owns only ref-counted collections, only plain ones, both, several
+of one kind or none) and entities are also deleted through DeleteWhere (model Links/HierWhere.v)."""
 import json
 import os
 import time
@@ -45,8 +48,11 @@ def parse_op(t, hier=False):
     w = int(t.next()) if hier else None
     op = dict(kind=kind, sd=t.next(), a=t.next(), keys=[], count=None)
     if hier:
-        op["w"] = w  # store level for C / D, pair index for the link and count operations
-    if kind in ("AL", "RL", "SL"):
+        op["w"] = w  # store level for C / D / DW, pair index for the link and count operations
+    if kind == "DW":  # DeleteWhere: filter true (all) or membership of the id in keys
+        op["all"] = t.next() == "1"
+        op["keys"] = t.ids()
+    elif kind in ("AL", "RL", "SL"):
         op["keys"] = t.ids()
     elif kind in ("A1", "R1", "I", "DC"):
         op["keys"] = [t.next()]
@@ -66,26 +72,34 @@ def op_text(op):
         s += " " + op["keys"][0]
     elif op["kind"] == "SC":
         s += " %s %d" % (op["keys"][0], op["count"])
+    elif op["kind"] == "DW":
+        s += " %d %d" % (1 if op["all"] else 0, len(op["keys"])) + "".join(" " + k for k in op["keys"])
     return s
 
 
 def parse_case(line):
     t = Toks(line)
     kind = t.next()
-    if kind == "T":
+    if kind in ("T", "K"):
         kids = {}
         for sd in "AB":
             n = int(t.next())
             kids[sd] = [t.next() == "1" for _ in range(n)]
         n = int(t.next())
-        pairs = [(int(t.next()), int(t.next())) for _ in range(n)]
+        pairs, pkinds = [], None
+        for _ in range(n):
+            pairs.append((int(t.next()), int(t.next())))
+            if kind == "K":  # which collections the two stores of the pair register: b(oth) l(ink) r(ef-counted) n(one)
+                pkinds = (pkinds or []) + [t.next()]
+        if kind == "K" and pkinds is None:
+            pkinds = []
         uA, uB = t.ids(), t.ids()
         ntx = int(t.next())
         txs = []
         for _ in range(ntx):
             n = int(t.next())
             txs.append([parse_op(t, True) for _ in range(n)])
-        return dict(kind="T", kids=kids, pairs=pairs, uA=uA, uB=uB, txs=txs)
+        return dict(kind="T", tag=kind, kids=kids, pairs=pairs, pkinds=pkinds, uA=uA, uB=uB, txs=txs)
     uA, uB = t.ids(), t.ids()
     if kind == "H":
         ntx = int(t.next())
@@ -104,12 +118,14 @@ def topo_text(case):
     s = ""
     for sd in "AB":
         s += "%d%s " % (len(case["kids"][sd]), "".join(" 1" if e else " 0" for e in case["kids"][sd]))
-    return s + "%d%s" % (len(case["pairs"]), "".join(" %d %d" % p for p in case["pairs"]))
+    pk = case.get("pkinds")
+    return s + "%d%s" % (len(case["pairs"]), "".join(" %d %d" % p + ("" if pk is None else " " + pk[i])
+                                                     for i, p in enumerate(case["pairs"])))
 
 
 def history_text(case, txs):
     uA, uB = case["uA"], case["uB"]
-    head = "H" if case["kind"] != "T" else "T " + topo_text(case)
+    head = "H" if case["kind"] != "T" else case.get("tag", "T") + " " + topo_text(case)
     s = "%s %d%s %d%s %d" % (head, len(uA), "".join(" " + x for x in uA), len(uB), "".join(" " + x for x in uB), len(txs))
     for tx in txs:
         s += " %d" % len(tx) + "".join(" " + op_text(op) for op in tx)
@@ -122,13 +138,15 @@ def unhex(h):
 
 def pretty_op(op):
     names = dict(C="Create", D="Delete", AL="AddLinks", RL="RemoveLinks", SL="SetLinks", A1="AddLink", R1="RemoveLink",
-                 I="IncrementLinkCount", DC="DecrementLinkCount", SC="SetLinkCount")
+                 I="IncrementLinkCount", DC="DecrementLinkCount", SC="SetLinkCount", DW="DeleteWhere")
     where = op["sd"]
     if op.get("w") is not None:
-        if op["kind"] in ("C", "D"):  # the store the call goes through
+        if op["kind"] in ("C", "D", "DW"):  # the store the call goes through
             where += ".root" if op["w"] == 0 else ".child%d" % op["w"]
         else:
             where = "pair%d:%s" % (op["w"], op["sd"])
+    if op["kind"] == "DW":
+        return "DeleteWhere[%s](%s)" % (where, "true" if op["all"] else "id in %r" % [unhex(k) for k in op["keys"]])
     s = "%s[%s](%r" % (names[op["kind"]], where, unhex(op["a"]))
     if op["kind"] in ("AL", "RL", "SL"):
         s += ", %r" % [unhex(k) for k in op["keys"]]
@@ -197,6 +215,9 @@ def parse_hblock(block):
     return toks[0], pres, cells
 
 
+KIND_NAMES = dict(b="a link collection and a ref-counted link collection", l="a link collection only",
+                  r="a ref-counted link collection only", n="no collection")
+
 def hier_oracle(case, pres, cells, guard):
     """the property clauses on the observation of a store hierarchy: every pair of collections by itself
     (an entity the collection's store does not hold is a missing entity for it), and the stores of one
@@ -214,7 +235,9 @@ def hier_oracle(case, pres, cells, guard):
         hit = property_oracle(case, sides, guard)
         if hit:
             names = ["root store" if lv == 0 else "child store %d" % lv for lv in (la, lb)]
-            return hit[0], "collections of pair %d (A: %s, B: %s): %s" % (p, names[0], names[1], hit[1])
+            pk = case.get("pkinds")
+            reg = "" if pk is None or p >= len(pk) else "; both stores register %s for it" % KIND_NAMES.get(pk[p], pk[p])
+            return hit[0], "collections of pair %d (A: %s, B: %s%s): %s" % (p, names[0], names[1], reg, hit[1])
     return None
 
 
@@ -387,7 +410,7 @@ def shrink(c, harness, model, case, key):
                     # move the operation into a transaction of its own is not tried; split instead
                     pass
                 op = tx[j]
-                if op["kind"] in ("AL", "RL", "SL"):
+                if op["kind"] in ("AL", "RL", "SL") or (op["kind"] == "DW" and len(op["keys"]) > 1):
                     for k in range(len(op["keys"])):
                         op2 = dict(op, keys=op["keys"][:k] + op["keys"][k + 1:])
                         cands.append(txs[:i] + [tx[:j] + [op2] + tx[j + 1:]] + txs[i + 1:])
@@ -423,7 +446,9 @@ def main(argv):
         "Coq 8.16.1 kernel (coqc; coqchk in the thorough tier); vm_compute in Examples only; no axioms",
         "hand-written models Links/LinkModel.v, SetLinksMerge.v, RefCount.v, LinkMachine.v of boltz/link_collection.go, "
         "link_collection_rc.go, the link-count functions of typed_bucket.go and cleanupLinks/DeleteById of store_crud.go; "
-        "Links/HierMachine.v of Create / DeleteById / processDeleteConstraints / GetEntityBucket for child stores (store_crud.go, store.go)",
+        "Links/HierMachine.v of Create / DeleteById / processDeleteConstraints / cleanupLinks (store.links, store.refCountedLinks) / "
+        "GetEntityBucket for child stores (store_crud.go, store.go); Links/HierWhere.v of DeleteWhere (which entities the scan of a "
+        "root / child / Extended child store yields: query_scanners.go, compared, not verified)",
         "bbolt: sorted key/bucket store, cursor order = byte order, rollback of a failed Update (compared, not verified)",
         "extraction (ExtrOcamlBasic only) + extraction/c05_driver.ml + drv_common.ml",
         "Go harness cmd/storageharness/c05.go, c05_hier.go (store definitions, generators, observers) and this comparison",
@@ -433,6 +458,7 @@ def main(argv):
         "SetLinkCount is not called with a negative count (documented API misuse) and counts stay within int32 (machine bound of the payload)",
         "entity ids are non-empty; the two stores are distinct (no self-links)",
         "store hierarchies have two levels (root store and its child stores); a child store of a child store is not modelled (design/C05.md, candidate defects)",
+        "a collection is declared on both of its stores or on neither (a one-sided declaration is a definition error: design/C05.md, candidate defects)",
     ]
     proof_ok = c.proof_step(FILES)
     try:
@@ -469,7 +495,7 @@ def main(argv):
     distinct = set()
     differing = 0
     reported = {}
-    kinds = {"H": 0, "S": 0, "T": 0}
+    kinds = {"H": 0, "S": 0, "T": 0, "K": 0}
     txs_total = 0
     out_of_guard = 0
     for line, i, m in zip(cases, impl, modl):
@@ -527,7 +553,10 @@ def main(argv):
                      "re-creating after delete, rare int32 boundary counts. T: seeded random histories over parent/child store hierarchies "
                      "(10 fixed topologies + random ones: 0-2 plain/extended child stores per side, 1-3 collection pairs on stores of any "
                      "level), creates and deletes through any store of a family, the link/count operations on every pair, scripted "
-                     "link-then-delete-either-end transactions. Non-trivial: some transaction committed a state holding at "
+                     "link-then-delete-either-end transactions. K: the same with the kinds of collection a pair's stores register varied "
+                     "(16 fixed topologies + random: only ref-counted, only plain, both, several of one kind, none, at root and child "
+                     "level), operations mostly on collections that exist (3 % refused ones), DeleteWhere(true | id = | id in) through "
+                     "any store next to DeleteById, scripted link-through-every-pair-then-delete transactions. Non-trivial: some transaction committed a state holding at "
                      "least one link or count; distinct by case text")
     idx = sorted(set((0, min(len(cases) - 1, kinds.get("S", 0)), len(cases) // 2, len(cases) - 1)))
     c.cov["samples"] = [dict(case=cases[k][:600], impl=impl[k][:600], model=modl[k][:600]) for k in idx]
